@@ -14,7 +14,7 @@ import (
 // params: hist (history leaving things pending), ctl (control program),
 // cons (consumer configuration), cap (Events capacity, -1 = NewWatcher).
 
-var CtlHists = []string{"idle", "mixed3", "burst6", "mvrm", "mvrmdir", "rmadd", "readerr", "shortread", "eof"}
+var CtlHists = []string{"idle", "mixed3", "burst6", "mvrm", "mvrmdir", "rmadd", "readerr", "shortread", "eof", "overflow"}
 var CtlCtls = []string{"close", "add-close", "remove-close", "list-close", "close||close", "close||add", "close||remove", "close||list", "add||remove"}
 var CtlCons = []string{"none", "events", "errors", "both", "both-stop1", "both-stop2"}
 
@@ -66,6 +66,9 @@ func ctlScenario(p map[string]any) *Scenario {
 		}
 		w, err := x.NewWatcher(capa)
 		mustNil(err)
+		if hist == "overflow" {
+			x.SubstitutePipe(w)
+		}
 		mustNil(x.Add(w, "w/f"))
 		mustNil(x.Add(w, "w/d"))
 		switch cons {
@@ -100,6 +103,9 @@ func ctlScenario(p map[string]any) *Scenario {
 		case "rmadd":
 			x.Rm("w/f")
 			x.Touch("w/f")
+		case "overflow":
+			// wd 2 is w/d (second Add); the overflow marker sits between two genuine records
+			x.Inject(w, Rec{Wd: 2, Mask: 0x100, Name: "n1"}, Rec{Wd: -1, Mask: 0x4000}, Rec{Wd: 2, Mask: 0x100, Name: "n2"})
 		default:
 			panic("unknown hist " + hist)
 		}
